@@ -46,7 +46,10 @@ def make_specs(ctx: Ctx, n):
         targets = rng.sample(pool, min(k, len(pool)))
         target = "solve_and_simulate" if i % 2 else "simulate"
         plan = [{"op": "simulate", "target": target, "init": init, "seed": rng.randrange(10**6), "vsrc": "own", "targets": targets}]
-        specs.append(mk_spec(i, m, ["c13"], plan, label=label))
+        specs.append(mk_spec(len(specs), m, ["c13"], plan, label=label))
+        if i % 4 == 0 and len(specs) % 4 != 0:
+            # the twin runs right after its sibling in the same driver process (chunks of 4 consecutive cases)
+            specs.append(mk_spec(len(specs), gen.twin(rng, m), ["c13"], plan, label=label + "; twin (same names, other bodies)"))
     return specs
 
 
